@@ -16,10 +16,10 @@ import (
 	"go.opentelemetry.io/otel"
 	"go.opentelemetry.io/otel/metric"
 	"go.opentelemetry.io/otel/propagation"
-	"go.opentelemetry.io/otel/trace"
 	sdkmetric "go.opentelemetry.io/otel/sdk/metric"
 	"go.opentelemetry.io/otel/sdk/metric/metricdata"
 	sdktrace "go.opentelemetry.io/otel/sdk/trace"
+	"go.opentelemetry.io/otel/trace"
 
 	"verif/simdrv"
 	"verif/simrt"
@@ -29,8 +29,15 @@ const prop = "C16"
 
 type engine struct{}
 
+//go:norace
 func (engine) Name() string { return "globalsim" }
 
+// RaceProps: the properties that demand race freedom; judged by the race-detector build of this engine.
+//
+//go:norace
+func (engine) RaceProps() []string { return []string{"C16"} }
+
+//go:norace
 func TestWorker(t *testing.T) { simdrv.Worker(t, engine{}) }
 
 type instKey struct {
@@ -39,6 +46,7 @@ type instKey struct {
 	kind  string // ci cf ui hi oc
 }
 
+//go:norace
 func (k instKey) String() string { return k.meter + "/" + k.name + ":" + k.kind }
 
 // handle is one instrument object handed out by the global API to one task.
@@ -89,10 +97,17 @@ type recProc struct {
 	ended map[string]int
 }
 
+//go:norace
 func (p *recProc) OnStart(context.Context, sdktrace.ReadWriteSpan) {}
-func (p *recProc) OnEnd(s sdktrace.ReadOnlySpan)                    { p.ended[s.Name()]++ }
-func (p *recProc) Shutdown(context.Context) error                  { return nil }
-func (p *recProc) ForceFlush(context.Context) error                { return nil }
+
+//go:norace
+func (p *recProc) OnEnd(s sdktrace.ReadOnlySpan) { p.ended[s.Name()]++ }
+
+//go:norace
+func (p *recProc) Shutdown(context.Context) error { return nil }
+
+//go:norace
+func (p *recProc) ForceFlush(context.Context) error { return nil }
 
 type world struct {
 	r       *simdrv.Run
@@ -110,6 +125,8 @@ type world struct {
 
 // mergeInstall combines concurrent installations of the same SDK: installation is in progress from
 // the earliest invocation and complete when the earliest call has returned.
+//
+//go:norace
 func (w *world) mergeInstall(dst **simdrv.OpCall, o *simdrv.OpCall) {
 	if *dst == nil {
 		*dst = o
@@ -134,6 +151,7 @@ type planOp struct {
 
 var instKinds = []string{"ci", "cf", "ui", "hi", "oc"}
 
+//go:norace
 func (engine) Body(r *simdrv.Run) {
 	w := &world{r: r, nextBit: map[instKey]int{}}
 	nTasks := 1 + r.Cfg(4)
